@@ -22,6 +22,11 @@ def run_fuzz_shard(sc, st, runs, seed, tier, known_active, shard):
     out = os.path.join(work, "stats.json")
     corpus = os.path.join(work, "corpus")
     os.makedirs(corpus)
+    # even shards start from a few small valid inputs (if the decoder provides them), odd shards from an empty corpus
+    if shard % 2 == 0:
+        for i, blob in enumerate(getattr(sc.fuzz, "seeds", [])):
+            with open(os.path.join(corpus, "seed-%d" % i), "wb") as f:
+                f.write(blob)
     try:
         env = dict(os.environ, PYTHONHASHSEED="0")
         cmd = [sys.executable, "-m", "vp.fuzzdrv", sc.prop, sc.name, str(runs), str(seed), tier, out, corpus,
